@@ -530,7 +530,10 @@ class Kernel(Module):
             # Did this Kernel eat the diag option?
             # If it does not return a LazyEvaluatedKernelTensor, we can call diag on the output
             if not isinstance(res, LazyEvaluatedKernelTensor):
-                if res.dim() == x1_.dim() and res.shape[-2:] == torch.Size((x1_.size(-2), x2_.size(-2))):
+                # (a full covariance has one more dimension than the inputs when last_dim_is_batch=True;
+                #  a `... x K x N` diagonal with K == N must not be mistaken for it)
+                full_dim = x1_.dim() + (1 if last_dim_is_batch else 0)
+                if res.dim() == full_dim and res.shape[-2:] == torch.Size((x1_.size(-2), x2_.size(-2))):
                     res = res.diagonal(dim1=-1, dim2=-2)
             return res
 
